@@ -35,7 +35,7 @@ def materialise(spec, registry=None, module=None, via_hybrid=False):
         return Node(spec, xo.String, [])
     if k == "struct":
         kids = [materialise(t, registry, module) for _, t in spec["fields"]]
-        data = {fn: kid.cls for (fn, _), kid in zip(spec["fields"], kids)}
+        data = {fn: _field_decl(ft, kid) for (fn, ft), kid in zip(spec["fields"], kids)}
         if module:
             data["__module__"] = module
             data["__qualname__"] = spec["name"]
@@ -76,6 +76,18 @@ def materialise(spec, registry=None, module=None, via_hybrid=False):
     raise ValueError(k)
 
 
+def _field_decl(ft, kid):
+    """what is written in the class body for a field: the type, or xo.Field(type, default=...) for a declared default"""
+    if ft["k"] == "ref" and "default" in ft:
+        import xobjects as xo
+
+        dflt = build_arg(kid.kids[0], ft["default"], Forms([0]), Env(None, None))
+        if isinstance(dflt, dict):
+            dflt = (dflt,)  # a dict default would be unpacked into keyword arguments: one positional argument instead
+        return xo.Field(kid.cls, default=dflt)
+    return kid.cls
+
+
 def _materialise_via_hybrid(spec, hyb):
     import xobjects as xo
 
@@ -84,7 +96,7 @@ def _materialise_via_hybrid(spec, hyb):
         kids = [_materialise_via_hybrid(t, hyb) for _, t in spec["fields"]]
         fields = {}
         for (fn, ft), kid in zip(spec["fields"], kids):
-            fields[fn] = hyb.get(id(kid.cls), kid.cls)  # a nested hybrid struct is declared by its HybridClass
+            fields[fn] = hyb.get(id(kid.cls), None) or _field_decl(ft, kid)  # a nested hybrid struct is declared by its HybridClass
         H = type(spec["name"], (xo.HybridClass,), {"_xofields": fields})
         hyb[id(H._XoStruct)] = H
         return Node(spec, H._XoStruct, kids)
@@ -418,6 +430,8 @@ def expected_value(spec, value):
             return {"shape": shape, "flat": [default_value(spec["item"]) for _ in range(n)]}
         return {"shape": value["shape"], "flat": [expected_value(spec["item"], v) for v in value["flat"]]}
     if k == "ref":
+        if isinstance(value, dict) and "$omit" in value:
+            return expected_value(spec["to"], spec["default"])
         return None if value is None else expected_value(spec["to"], value)
     if k == "unionref":
         return None if value is None else [value[0], expected_value(spec["members"][value[0]], value[1])]
@@ -437,6 +451,8 @@ def default_value(spec, top=True):
     if k == "array":
         n = math.prod(spec["shape"])
         return {"shape": list(spec["shape"]), "flat": [ANY if spec["item"]["k"] == "scalar" else default_value(spec["item"], False) for _ in range(n)]}
+    if k == "ref" and "default" in spec:
+        return expected_value(spec["to"], spec["default"])
     if k in ("ref", "unionref"):
         return None
     raise ValueError(k)
